@@ -254,6 +254,44 @@ func gen(t *rapid.T) Case {
 		c.Groups = []string{"k={1}"}
 		c.Accums = []string{"n={sumi {.} 1}", "cat:={.}{2};", "last:={3}", "diff={subi {multi {.} 2} {3}}"}
 	}
+	// display options of the command line: they select / decorate what the final frame shows, never what
+	// is aggregated, so the CSV export and the exit status must not move and the snapshot must stay a
+	// function of the data (compared between tunings like everything else)
+	if rapid.IntRange(0, 2).Draw(t, "display") == 0 {
+		opt := func(label string, flag ...string) {
+			if rapid.Bool().Draw(t, label) {
+				c.Flags = append(c.Flags, flag...)
+			}
+		}
+		small := func(label string) string {
+			return strconv.Itoa(rapid.SampledFrom([]int{0, 1, 2, 3, 7, 50}).Draw(t, label))
+		}
+		switch c.Cmd {
+		case "histo":
+			opt("all", "-a")
+			opt("bars", "-b")
+			opt("pct", "--percentage")
+			opt("atleast", "--atleast", small("atleastN"))
+		case "table":
+			opt("num", "--num", small("numN"))
+			opt("cols", "--cols", small("colsN"))
+			opt("rowtotal", "--rowtotal")
+			opt("coltotal", "--coltotal")
+		case "heatmap":
+			opt("num", "--num", small("numN"))
+			opt("cols", "--cols", small("colsN"))
+			opt("min", "--min", rapid.SampledFrom([]string{"0", "-5", "2", "1000"}).Draw(t, "minV"))
+			opt("max", "--max", rapid.SampledFrom([]string{"0", "3", "10", "100000"}).Draw(t, "maxV"))
+		case "spark":
+			opt("num", "--num", small("numN"))
+		case "analyze":
+			opt("reverse", "--reverse")
+		case "reduce", "reduce-serial":
+			opt("table", "--table")
+			opt("num", "--num", small("numN"))
+			opt("cols", "--cols", small("colsN"))
+		}
+	}
 	if rapid.IntRange(0, 3).Draw(t, "ignore") == 0 {
 		c.Ignores = []string{rapid.SampledFrom([]string{`{eq {1} a}`, `{eq {2} x}`, `{not {2}}`, `{lt {len {0}} 3}`}).Draw(t, "ig")}
 	}
@@ -391,7 +429,19 @@ func runTuning(bin string, c *Case, idx int) (*result, error) {
 	}
 	r.snapshot, r.stderr, r.code = string(so), se, code
 	if c.Cmd != "analyze" {
-		cargs := append(append([]string{}, args...), "--csv", "-")
+		cargs := append([]string{}, args...)
+		if c.Cmd == "histo" {
+			// histo -a prints the full table to stdout as well; the CSV run leaves it out so that
+			// stdout holds the export only
+			k := cargs[:0]
+			for _, a := range cargs {
+				if a != "-a" {
+					k = append(k, a)
+				}
+			}
+			cargs = k
+		}
+		cargs = append(cargs, "--csv", "-")
 		so2, se2, code2, err := runRare(bin, append(cargs, tail...), stdin, tu.Procs)
 		if err != nil {
 			return nil, fmt.Errorf("harness: cannot run rare: %v", err)
@@ -419,6 +469,13 @@ func maskSnapshot(s string) string {
 		if statusLine.MatchString(lines[i]) {
 			lines[i] = "<status>"
 			break
+		}
+	}
+	// histo -a prints the full table after the footer, so the status line is followed by more text;
+	// it is recognised by its position directly under the summary line
+	for i := 1; i < len(lines); i++ {
+		if strings.HasPrefix(lines[i-1], "Matched: ") && statusLine.MatchString(lines[i]) {
+			lines[i] = "<status>"
 		}
 	}
 	return strings.Join(lines, "\n")
@@ -931,6 +988,13 @@ func check(c Case) error {
 		o.Label(ref.parseErrors > 0, "parse-errors(exit 2)")
 		o.Label(ref.matched == 0, "no-match(exit 1)")
 		o.Label(true, "cmd:"+c.Cmd)
+		for _, f := range c.Flags {
+			switch f {
+			case "-a", "-b", "--percentage", "--atleast", "--num", "--cols", "--rowtotal", "--coltotal", "--min", "--max", "--reverse", "--table":
+				o.Label(true, "display-option")
+				o.Label(true, "display:"+f)
+			}
+		}
 		diffWB, multiFile, perm, repart, stdin, gz := false, false, false, false, false, false
 		for i, tu := range c.Tunings {
 			if len(tu.Cuts) > 0 {
@@ -977,7 +1041,7 @@ func TestAggregates(t *testing.T) {
 	pbt.ReportKnown("C03", knownRenderHistory, renderHistoryWitness)
 	pbt.Run(t, pbt.Spec[Case]{
 		Property: "C03", Name: "aggregates",
-		Rule:   "the real binary: corpus = generated list of 'key [subkey [increment]]' lines (hostile keys: commas, quotes, CR, non-UTF-8, empty, tab; increments absent/negative/zero/huge/non-numeric/empty) x command in {histo, table, heatmap, spark --notruncate, bars, analyze, reduce with order-insensitive accumulators, reduce with order-sensitive accumulators under 1 reader + 1 worker} x generated -e/-i/sort flags (keys with a line feed via \\n in the expression) x 2-3 tunings drawn independently: --workers 1-16, --batch 1-1000, --batch-buffer 1-16, --readers 1-6, GOMAXPROCS 1-16, re-partition of the same lines into 1-6 files, permutation of the file arguments, all lines on stdin, some files gzip with -z. Oracle: (a) differential: byte-identical --csv - output, identical snapshot stdout after masking the status line, identical exit status; (b) reference: own RFC 4180 parser reads the CSV back == independent sequential fold of the sequentially extracted keys (big.Int, wrapped to int64), exit status == 2 on parse errors else 1 on no match else 0; analyze: count exact, mean/stddev/min/max within 1.5e-4 (printed with 4 decimals). Non-trivial: >=2 files, >=2 distinct keys, tunings differing in workers and batch, and a key needing CSV quoting or an explicit increment; distinct by case JSON",
+		Rule:   "the real binary: corpus = generated list of 'key [subkey [increment]]' lines (hostile keys: commas, quotes, CR, non-UTF-8, empty, tab; increments absent/negative/zero/huge/non-numeric/empty) x command in {histo, table, heatmap, spark --notruncate, bars, analyze, reduce with order-insensitive accumulators, reduce with order-sensitive accumulators under 1 reader + 1 worker} x generated -e/-i/sort flags x (1 in 3) display options of the command (histo -a -b --percentage --atleast; table --num --cols --rowtotal --coltotal; heatmap --num --cols --min --max; spark --num; analyze --reverse; reduce --table --num --cols) (keys with a line feed via \\n in the expression) x 2-3 tunings drawn independently: --workers 1-16, --batch 1-1000, --batch-buffer 1-16, --readers 1-6, GOMAXPROCS 1-16, re-partition of the same lines into 1-6 files, permutation of the file arguments, all lines on stdin, some files gzip with -z. Oracle: (a) differential: byte-identical --csv - output, identical snapshot stdout after masking the status line, identical exit status; (b) reference: own RFC 4180 parser reads the CSV back == independent sequential fold of the sequentially extracted keys (big.Int, wrapped to int64), exit status == 2 on parse errors else 1 on no match else 0; analyze: count exact, mean/stddev/min/max within 1.5e-4 (printed with 4 decimals). Non-trivial: >=2 files, >=2 distinct keys, tunings differing in workers and batch, and a key needing CSV quoting or an explicit increment; distinct by case JSON",
 		Budget: pbt.Budget{Quick: 2400, Thorough: 60000},
 		Gen:    gen, Check: check, Classify: classify,
 	})
